@@ -168,6 +168,10 @@ impl PreProcessContext {
 }
 
 fn get_luarocks_deploy_dir() -> String {
+    #[cfg(feature = "verif-hooks")]
+    if let Some(dir) = crate::verif_hooks::luarocks_deploy_dir_override() {
+        return dir;
+    }
     Command::new("luarocks")
         .args(["config", "deploy_lua_dir"])
         .output()
